@@ -43,7 +43,8 @@ def config_term(config):
     acts = []
     for spec in config["actors"]:
         if spec["kind"] == "app":
-            items = [f"({fid_term(r['batch'])}, {row_term(r)})" for r in spec["rows"]]
+            # a non-manager node of a multi-node batch records nothing: the model gives it no rows
+            items = [f"({fid_term(r['batch'])}, {row_term(r)})" for r in spec["rows"]] if spec.get("manager", True) else []
             acts.append(f"App {clist(items)} AIdle")
         else:
             acts.append(f"Col {cnat(spec['rounds'])} CIdle [] false []")
@@ -152,7 +153,10 @@ def random_config(rng, uid):
                 rows.append(mk_row(name, rng.choice([None] + list(range(1, nbatch + 1)) * 3),
                                    rc=rng.choice([0, 0, 1, -9, 255]), status=rng.choice(STATUSES),
                                    ex=0.25 * rng.randint(0, 400), ct=ct, hpc=hpc))
-        actors.append({"kind": "app", "via": via, "rows": rows})
+        spec = {"kind": "app", "via": via, "rows": rows}
+        if via in ("cancel", "complete") and rng.random() < 0.3:
+            spec["manager"] = False          # the same jobs finishing / being canceled on a non-manager node
+        actors.append(spec)
     for c in range(ncol):
         actors.append({"kind": "col", "rounds": rng.randint(1, 3)})
     rng.shuffle(actors)
@@ -169,6 +173,10 @@ def exhaustive_configs(tier):
         ("1app2rows+1col", {"actors": [A(mk_row("r1", 1), mk_row('r"2', 1)), C(1)]}),
         ("2app-samefile+1col", {"actors": [A(mk_row("x", 1)), A(mk_row("y,", 1, rc=1)), C(1)]}),
         ("1app+direct+1col", {"actors": [A(mk_row("x", 1)), {"kind": "app", "via": "direct", "rows": [mk_row("d", None, rc=1, status="canceled", ex=0)]}, C(1)]}),
+        ("manager+nonmanager-cancel+1col", {"actors": [{"kind": "app", "via": "cancel", "rows": [mk_row("c", 1, rc=1, status="canceled", ex=0.0)]},
+                                                        {"kind": "app", "via": "cancel", "manager": False, "rows": [mk_row("c", 1, rc=1, status="canceled", ex=0.0)]}, C(1)]}),
+        ("manager+nonmanager-complete+1col", {"actors": [{"kind": "app", "via": "complete", "rows": [mk_row("f", 1, rc=2)]},
+                                                          {"kind": "app", "via": "complete", "manager": False, "rows": [mk_row("f", 1, rc=2)]}, C(1)]}),
     ]
     if tier == "thorough":
         cfgs += [
